@@ -437,15 +437,6 @@ impl MqttState {
     }
 
     fn handle_incoming_pubcomp(&mut self, pubcomp: &PubComp) -> Result<Option<Packet>, StateError> {
-        let outgoing = self.check_collision(pubcomp.pkid).map(|publish| {
-            let pkid = publish.pkid;
-            let event = Event::Outgoing(Outgoing::Publish(pkid));
-            self.events.push_back(event);
-            self.collision_ping_count = 0;
-
-            Packet::Publish(publish)
-        });
-
         if !self.outgoing_rel.contains(pubcomp.pkid as usize) {
             error!("Unsolicited pubcomp packet: {:?}", pubcomp.pkid);
             return Err(StateError::Unsolicited(pubcomp.pkid));
@@ -461,6 +452,21 @@ impl MqttState {
         }
 
         self.inflight -= 1;
+
+        // Only a solicited pubcomp frees the packet id for a publish waiting on it. The
+        // released publish is in flight from now on, like in the puback path
+        let outgoing = self.check_collision(pubcomp.pkid).map(|publish| {
+            self.outgoing_pub[publish.pkid as usize] = Some(publish.clone());
+            self.inflight += 1;
+
+            let pkid = publish.pkid;
+            let event = Event::Outgoing(Outgoing::Publish(pkid));
+            self.events.push_back(event);
+            self.collision_ping_count = 0;
+
+            Packet::Publish(publish)
+        });
+
         Ok(outgoing)
     }
 
